@@ -155,6 +155,9 @@ class CMovr(RiscvcInstruction):
     syntax = Syntax(["c", ".", "mv", " ", rd, ",", " ", rm])
 
     def encode(self):
+        if self.rm.num == 0:
+            # This is the encoding of c.jr rd
+            raise ValueError(f"Cannot encode {self.rm} in c.mv")
         tokens = self.get_tokens()
         tokens[0][0:2] = 0b10
         tokens[0][2:7] = self.rm.num
@@ -233,6 +236,9 @@ class CJr(RiscvcInstruction):
     syntax = Syntax(["c", ".", "jr", " ", rs1])
 
     def encode(self):
+        if self.rs1.num == 0:
+            # This encoding is reserved
+            raise ValueError(f"Cannot encode {self.rs1} in c.jr")
         tokens = self.get_tokens()
         tokens[0][0:7] = 0b0000010
         tokens[0][7:12] = self.rs1.num
@@ -258,6 +264,9 @@ class CJalr(RiscvcInstruction):
     syntax = Syntax(["c", ".", "jalr", " ", rs1])
 
     def encode(self):
+        if self.rs1.num == 0:
+            # This is the encoding of c.ebreak
+            raise ValueError(f"Cannot encode {self.rs1} in c.jalr")
         tokens = self.get_tokens()
         tokens[0][0:7] = 0b0000010
         tokens[0][7:12] = self.rs1.num
@@ -359,6 +368,9 @@ class CAddi4spn(RiscvcInstruction):
     syntax = Syntax(["c", ".", "addi4spn", " ", rd, " ", imm])
 
     def encode(self):
+        # A zero immediate is reserved, the all zero word is illegal
+        if self.imm % 4 or self.imm not in range(4, 1024):
+            raise ValueError(f"Cannot encode {self.imm} in c.addi4spn")
         tokens = self.get_tokens()
         tokens[0][0:2] = 0b00
         tokens[0][2:5] = self.rd.num - 8
@@ -419,6 +431,9 @@ class CLui(RiscvcInstruction):
         # The operand is the 20 bit value of lui, with bits 5 to 19 equal
         if sign_extend(self.imm, 6) & 0xFFFFF != self.imm:
             raise ValueError(f"Cannot encode {self.imm} in c.lui")
+        if self.rd.num == 2:
+            # This is the encoding of c.addi16sp
+            raise ValueError(f"Cannot encode {self.rd} in c.lui")
         imm6 = self.imm & 0x3F
         tokens = self.get_tokens()
         tokens[0].op = 0b01
